@@ -238,9 +238,15 @@ class GeckoUdpSocket:
             self._process_received_data()
             # Do loop for timeout/retry
             for handler in self._receive_handlers:
-                handler.loop(self)
+                try:
+                    handler.loop(self)
+                except Exception:
+                    _LOGGER.exception("Unhandled exception in handler loop")
             self._cleanup_handlers()
-            self._loop_func()
+            try:
+                self._loop_func()
+            except Exception:
+                _LOGGER.exception("Unhandled exception in loop func")
 
         _LOGGER.info("GeckoUdpSocket thread finished")
 
